@@ -463,8 +463,166 @@ class SymSeq(Sym):
         n = p.length()
         return self[:n] == p
 
-    def hex(self):
-        raise Unsupported("hex() of symbolic bytes")
+    def hex(self, *a):
+        if a:
+            raise Unsupported("bytes.hex(sep)")
+        out = []
+        for b in self._elems("hex"):
+            for nib in ((b >> 4) & 15, b & 15):
+                if isinstance(nib, SymInt):
+                    code = SymInt(S(z3.If(nib.t < 10, nib.t + 48, nib.t + 87)), ub=128)
+                    code.nib = nib
+                    out.append(SymChar(code))
+                else:
+                    out.append("0123456789abcdef"[nib])
+        return SymStr(out)
+
+    # -- element-wise algorithms (ropes without abstract pieces: every item a byte value, concrete or symbolic) ----------
+    def _elems(self, what):
+        out = []
+        for it in self.items:
+            if isinstance(it, Piece):
+                n = S(it.ln)
+                if isinstance(it, Fill) and z3.is_int_value(n) and n.as_long() <= 4096:
+                    out.extend([it.value] * n.as_long())
+                    continue
+                if z3.is_int_value(n) and n.as_long() <= 64:
+                    out.extend(byte_of(it.base, S(it.off + i)) for i in range(n.as_long()))
+                    continue
+                raise Unsupported("%s() of a rope with an abstract piece" % what)
+            out.append(it)
+        return out
+
+    @staticmethod
+    def _sub_elems(sub, what):
+        if isinstance(sub, int) or isinstance(sub, SymInt):
+            return [sub]
+        return SymSeq(sub)._elems(what)
+
+    def _match_elems(self, es, i, sub):
+        if i + len(sub) > len(es):
+            return False
+        ts = []
+        for a, b in zip(es[i:i + len(sub)], sub):
+            if isinstance(a, int) and isinstance(b, int):
+                if a != b:
+                    return False
+            else:
+                ts.append(toint(a) == toint(b))
+        return bool(SymBool(S(z3.And(ts)))) if ts else True
+
+    def find(self, sub, start=0, end=None):
+        es, sb = self._elems("find"), self._sub_elems(sub, "find")
+        n = len(es)
+        start = max(n + start, 0) if start < 0 else start
+        end = n if end is None else (max(n + end, 0) if end < 0 else min(end, n))
+        for i in range(start, end - len(sb) + 1):
+            if self._match_elems(es, i, sb):
+                return i
+        return -1
+
+    def rfind(self, sub, start=0, end=None):
+        es, sb = self._elems("rfind"), self._sub_elems(sub, "rfind")
+        n = len(es)
+        end = n if end is None else min(end, n)
+        for i in range(end - len(sb), start - 1, -1):
+            if self._match_elems(es, i, sb):
+                return i
+        return -1
+
+    def index(self, sub, start=0, end=None):
+        i = self.find(sub, start, end)
+        if i < 0:
+            raise ValueError("subsection not found")
+        return i
+
+    def count(self, sub):
+        es, sb = self._elems("count"), self._sub_elems(sub, "count")
+        if not sb:
+            return len(es) + 1
+        n, i = 0, 0
+        while i <= len(es) - len(sb):
+            if self._match_elems(es, i, sb):
+                n += 1
+                i += len(sb)
+            else:
+                i += 1
+        return n
+
+    def __contains__(self, sub):
+        return self.find(sub) >= 0
+
+    def endswith(self, p):
+        if isinstance(p, tuple):
+            return any(bool(self.endswith(x)) for x in p)
+        p = SymSeq(p)
+        n, m = self.length(), p.length()
+        if isinstance(n, int) and isinstance(m, int):
+            if m > n:
+                return False
+            return self[n - m:] == p
+        raise Unsupported("endswith on a symbolic-length rope")
+
+    def replace(self, old, new, count=-1):
+        es, ob, nb = self._elems("replace"), self._sub_elems(old, "replace"), self._sub_elems(new, "replace")
+        if not ob:
+            raise Unsupported("bytes.replace(b'', ...)")
+        out, i, n = [], 0, 0
+        while i < len(es):
+            if (count < 0 or n < count) and self._match_elems(es, i, ob):
+                out.extend(nb)
+                i += len(ob)
+                n += 1
+            else:
+                out.append(es[i])
+                i += 1
+        return SymSeq(out, self.kind)
+
+    def split(self, sep=None, maxsplit=-1):
+        if sep is None:
+            raise Unsupported("bytes.split() on whitespace")
+        es, sb = self._elems("split"), self._sub_elems(sep, "split")
+        out, start, i, n = [], 0, 0, 0
+        while i <= len(es) - len(sb) and (maxsplit < 0 or n < maxsplit):
+            if self._match_elems(es, i, sb):
+                out.append(SymSeq(es[start:i], self.kind))
+                i += len(sb)
+                start = i
+                n += 1
+            else:
+                i += 1
+        out.append(SymSeq(es[start:], self.kind))
+        return out
+
+    def join(self, parts):
+        out = []
+        for i, p in enumerate(parts):
+            if i:
+                out.extend(self.items)
+            out.extend(SymSeq(p).items)
+        return SymSeq(out, self.kind)
+
+    def lower(self):
+        out = []
+        for c in self._elems("lower"):
+            if isinstance(c, int):
+                out.append(c + 32 if 65 <= c <= 90 else c)
+            else:
+                out.append(SymInt(S(z3.If(z3.And(c.t >= 65, c.t <= 90), c.t + 32, c.t)), ub=256))
+        return SymSeq(out, self.kind)
+
+    def reverse(self):
+        self.items = self._elems("reverse")[::-1]
+
+    def __reversed__(self):
+        return iter(self._elems("reversed")[::-1])
+
+    def isdigit(self):
+        es = self._elems("isdigit")
+        if not es:
+            return False
+        ts = [z3.And(toint(c) >= 48, toint(c) <= 57) for c in es]
+        return bool(SymBool(S(z3.And(ts))))
 
     STRIP_BOUND = 3        # bytes of an abstract piece that one strip call may remove (longer runs are outside the bound)
 
@@ -741,24 +899,17 @@ class SymStr(Sym):
     def codes(self):
         return [_code(c) for c in self.chars]
 
-    def index(self, ch, start=0):
-        if isinstance(ch, str) and len(ch) == 1:
-            for i, c in enumerate(self.codes()):
-                if i < start:
-                    continue
-                if (c == ord(ch)) if isinstance(c, int) else bool(c == ord(ch)):
-                    return i
+    def index(self, ch, start=0, end=None):
+        i = self._find(ch, start, end)
+        if i < 0:
             raise ValueError("substring not found")
-        raise Unsupported("SymStr.index(%r)" % (ch,))
+        return i
 
-    def find(self, ch, start=0):
-        try:
-            return self.index(ch, start)
-        except ValueError:
-            return -1
+    def find(self, ch, start=0, end=None):
+        return self._find(ch, start, end)
 
     def __contains__(self, ch):
-        return self.find(ch) >= 0
+        return self._find(ch) >= 0
 
     def __getitem__(self, k):
         r = self.chars[k]
@@ -815,11 +966,15 @@ class SymStr(Sym):
         raise Unsupported("encode(%s) of SymStr" % enc)
 
     def startswith(self, p):
+        if isinstance(p, tuple):
+            return any(bool(self.startswith(x)) for x in p)
         if len(p) > len(self.chars):
             return False
         return self[:len(p)] == p
 
     def endswith(self, p):
+        if isinstance(p, tuple):
+            return any(bool(self.endswith(x)) for x in p)
         if len(p) > len(self.chars):
             return False
         return self[len(self.chars) - len(p):] == p
@@ -832,18 +987,192 @@ class SymStr(Sym):
         t = toint(c)
         return bool(SymBool(z3.Or(z3.And(t >= 9, t <= 13), z3.And(t >= 28, t <= 32), t == 133, t == 160)))
 
-    def strip(self, chars=None):
-        if chars is not None:
-            raise Unsupported("SymStr.strip(chars)")
+    def _strip(self, chars, left, right):
+        if chars is not None and not isinstance(chars, (str, SymStr)):
+            raise TypeError("strip arg must be None or str")
+        cset = None if chars is None else (chars.codes() if isinstance(chars, SymStr) else [ord(c) for c in chars])
+
+        def hit(c):
+            if cset is None:
+                return self._is_space(c)
+            if isinstance(c, int) and all(isinstance(x, int) for x in cset):
+                return c in cset
+            return bool(SymBool(z3.Or([toint(c) == toint(x) for x in cset]))) if cset else False
         cs = self.codes()
         lo, hi = 0, len(cs)
-        while lo < hi and self._is_space(cs[lo]):
+        while left and lo < hi and hit(cs[lo]):
             lo += 1
-        while hi > lo and self._is_space(cs[hi - 1]):
+        while right and hi > lo and hit(cs[hi - 1]):
             hi -= 1
         return SymStr(self.chars[lo:hi])
 
+    def strip(self, chars=None):
+        return self._strip(chars, True, True)
+
+    def lstrip(self, chars=None):
+        return self._strip(chars, True, False)
+
+    def rstrip(self, chars=None):
+        return self._strip(chars, False, True)
+
+    def _match_at(self, i, sub):
+        """does the substring `sub` (str or SymStr) occur at position i -- decided through the explorer"""
+        sc = sub.codes() if isinstance(sub, SymStr) else [ord(c) for c in sub]
+        cs = self.codes()
+        if i + len(sc) > len(cs):
+            return False
+        ts = []
+        for a, b in zip(cs[i:i + len(sc)], sc):
+            if isinstance(a, int) and isinstance(b, int):
+                if a != b:
+                    return False
+            else:
+                ts.append(toint(a) == toint(b))
+        return bool(SymBool(S(z3.And(ts)))) if ts else True
+
+    def _find(self, sub, start=0, end=None, reverse=False):
+        if isinstance(sub, SymChar):
+            sub = SymStr([sub])
+        if not isinstance(sub, (str, SymStr)):
+            raise TypeError("must be str")
+        n = len(self.chars)
+        start = max(n + start, 0) if start < 0 else start
+        end = n if end is None else (max(n + end, 0) if end < 0 else min(end, n))
+        rng = range(start, end - len(sub) + 1)
+        for i in (reversed(rng) if reverse else rng):
+            if self._match_at(i, sub):
+                return i
+        return -1
+
+    def partition(self, sep):
+        i = self._find(sep)
+        if i < 0:
+            return (SymStr(self.chars), "", "")
+        return (SymStr(self.chars[:i]), sep, SymStr(self.chars[i + len(sep):]))
+
+    def rpartition(self, sep):
+        i = self._find(sep, reverse=True)
+        if i < 0:
+            return ("", "", SymStr(self.chars))
+        return (SymStr(self.chars[:i]), sep, SymStr(self.chars[i + len(sep):]))
+
+    def rfind(self, sub, start=0, end=None):
+        return self._find(sub, start, end, reverse=True)
+
+    def rindex(self, sub, start=0, end=None):
+        i = self._find(sub, start, end, reverse=True)
+        if i < 0:
+            raise ValueError("substring not found")
+        return i
+
+    def count(self, sub):
+        if len(sub) == 0:
+            return len(self.chars) + 1
+        n, i = 0, 0
+        while i <= len(self.chars) - len(sub):
+            if self._match_at(i, sub):
+                n += 1
+                i += len(sub)
+            else:
+                i += 1
+        return n
+
+    def rsplit(self, sep=None, maxsplit=-1):
+        if not isinstance(sep, (str, SymStr)) or len(sep) == 0:
+            raise Unsupported("SymStr.rsplit(%r)" % (sep,))
+        out, end, n = [], len(self.chars), 0
+        i = end - len(sep)
+        while i >= 0 and (maxsplit < 0 or n < maxsplit):
+            if self._match_at(i, sep) and i + len(sep) <= end:
+                out.append(SymStr(self.chars[i + len(sep):end]))
+                end = i
+                n += 1
+                i -= len(sep)
+            else:
+                i -= 1
+        out.append(SymStr(self.chars[:end]))
+        return out[::-1]
+
+    def upper(self):
+        out = []
+        for ch, c in zip(self.chars, self.codes()):
+            if isinstance(c, int):
+                out.append(chr(c).upper())
+            else:
+                if core.CTX.is_sat(toint(c) >= 128):
+                    raise Unsupported("upper() of a possibly non-ASCII symbolic character")
+                t = toint(c)
+                out.append(SymChar(SymInt(S(z3.If(z3.And(t >= 97, t <= 122), t - 32, t)))))
+        return SymStr(out)
+
+    def isalpha(self):
+        return self._all_in([(65, 90), (97, 122)], 0x80)
+
+    def isalnum(self):
+        return self._all_in([(48, 57), (65, 90), (97, 122)], 0x80)
+
+    def isspace(self):
+        if not self.chars:
+            return False
+        return all(self._is_space(c) for c in self.codes())
+
+    def __mul__(self, n):
+        if isinstance(n, int):
+            return SymStr(self.chars * n)
+        raise Unsupported("SymStr * symbolic")
+
+    __rmul__ = __mul__
+
+    def ljust(self, n, fill=" "):
+        return SymStr(self.chars + [fill] * max(0, n - len(self.chars)))
+
+    def rjust(self, n, fill=" "):
+        return SymStr([fill] * max(0, n - len(self.chars)) + self.chars)
+
+    def join(self, parts):
+        out = []
+        for i, p in enumerate(parts):
+            if i:
+                out.extend(self.chars)
+            out.extend(p.chars if isinstance(p, SymStr) else [p] if isinstance(p, SymChar) else list(p))
+        return SymStr(out)
+
     def split(self, sep=None, maxsplit=-1):
+        if sep is None:
+            out, cur, n = [], [], 0
+            cs = self.codes()
+            i = 0
+            while i < len(cs):
+                if self._is_space(cs[i]):
+                    if cur:
+                        out.append(SymStr(cur))
+                        cur = []
+                        n += 1
+                        if maxsplit >= 0 and n >= maxsplit:
+                            j = i
+                            while j < len(cs) and self._is_space(cs[j]):
+                                j += 1
+                            if j < len(cs):
+                                out.append(SymStr(self.chars[j:]))
+                            return out
+                else:
+                    cur.append(self.chars[i])
+                i += 1
+            if cur:
+                out.append(SymStr(cur))
+            return out
+        if isinstance(sep, (str, SymStr)) and len(sep) > 1:
+            out, start, i, n = [], 0, 0, 0
+            while i <= len(self.chars) - len(sep) and (maxsplit < 0 or n < maxsplit):
+                if self._match_at(i, sep):
+                    out.append(SymStr(self.chars[start:i]))
+                    i += len(sep)
+                    start = i
+                    n += 1
+                else:
+                    i += 1
+            out.append(SymStr(self.chars[start:]))
+            return out
         if not isinstance(sep, str) or len(sep) != 1:
             raise Unsupported("SymStr.split(%r)" % (sep,))
         out, cur, n = [], [], 0
@@ -911,6 +1240,18 @@ class SymStr(Sym):
         return self._all_in([(48, 57), (0xb2, 0xb3), (0xb9, 0xb9)], 0x660)
 
     def replace(self, old, new, count=-1):
+        if isinstance(old, (str, SymStr)) and isinstance(new, (str, SymStr)) and (len(old) != 1 or count != -1 or isinstance(old, SymStr) or isinstance(new, SymStr)) and len(old) >= 1:
+            out, i, n = [], 0, 0
+            newc = new.chars if isinstance(new, SymStr) else list(new)
+            while i < len(self.chars):
+                if (count < 0 or n < count) and self._match_at(i, old):
+                    out.extend(newc)
+                    i += len(old)
+                    n += 1
+                else:
+                    out.append(self.chars[i])
+                    i += 1
+            return SymStr(out)
         if not (isinstance(old, str) and isinstance(new, str) and len(old) == 1) or count != -1:
             raise Unsupported("SymStr.replace(%r,%r)" % (old, new))
         if len(new) != 1:
@@ -933,7 +1274,13 @@ class SymStr(Sym):
     def zfill(self, n):
         if len(self.chars) >= n:
             return SymStr(self.chars)
-        return SymStr(["0"] * (n - len(self.chars)) + self.chars)
+        pad = ["0"] * (n - len(self.chars))
+        if self.chars:
+            c = self.codes()[0]
+            signed = (c in (43, 45)) if isinstance(c, int) else bool(SymBool(z3.Or(toint(c) == 43, toint(c) == 45)))
+            if signed:
+                return SymStr(self.chars[:1] + pad + self.chars[1:])
+        return SymStr(pad + self.chars)
 
     def lower(self):
         out = []
